@@ -90,6 +90,12 @@ impl LiteralVisitor {
         let value = str_literal.value.to_string();
         let span = str_literal.span;
 
+        // a literal without position is not part of the input (injected code): nothing to report,
+        // and no position to look up
+        if span.is_dummy() {
+            return;
+        }
+
         if value.len() > self.min_literal_length && value.len() <= self.max_literal_length {
             if !self.literals.contains_key(&value) {
                 self.literals.insert(value.clone(), HashSet::new());
